@@ -3,8 +3,10 @@ spec/checkpoint: Checkpoint.tla (mode H history spec of CheckpointFile/Writer/Re
 paths, names and value ids), MC*.tla/.cfg (exhaustive bounded histories + simulation),
 TraceCheckpoint.tla (validation of logged random runs of the real code).
 Driver: harness/drivers/checkpoint.cc (owns the catalogue of concrete values, compares bit by bit)."""
+import json
 import os
 import random
+import time
 import urllib.parse
 from concurrent.futures import ThreadPoolExecutor
 
@@ -168,6 +170,9 @@ class Plan:
                 if st["ro"]:
                     self.add("fhash", ("hash1", si))
             if every_step or last:
+                if hid % 8 != 0:
+                    # the reads of this observation share one fresh READ handle (1 history in 8: one handle per read)
+                    self.add("fresh", None)
                 for (i, j) in slot_list(np_, nn_):
                     e = st["obs"][i][j]
                     p = pm["p%d" % (i + 1)]
@@ -425,6 +430,7 @@ def replay(ctx, cat, exe, hists, tag, bind_of, every_step_of=None):
     stats = {"ok": 0, "viol": 0, "branch": 0}
     nv0 = len(ctx.violations)
     total = 0
+    t0 = time.time()
     for lo in range(0, len(hists), SLICE):
         plans = []
         for n in range(lo, min(lo + SLICE, len(hists))):
@@ -464,7 +470,7 @@ def replay(ctx, cat, exe, hists, tag, bind_of, every_step_of=None):
             os.remove("%s-%d.h5" % (base, i))
         except OSError:
             pass
-    vlib.log("%s: %d histories replayed (%s)" % (tag, total, stats))
+    vlib.log("%s: %d histories replayed in %.0fs (%s)" % (tag, total, time.time() - t0, stats))
     for v in ctx.violations[nv0:]:
         vlib.log("   violation key %s" % v[0])
     return stats
@@ -644,6 +650,8 @@ def run(ctx):
         res = vlib.tlc("checkpoint", mod, cfg=mod + ".cfg", timeout=2400, **kw)
         vlib.tlc_must_hold(res, what)
         ctx.add_tlc(mod + ("(simulate)" if kw.get("simulate") else ""), res)
+        # TLC's workers print in a run-dependent order; the binding of a history depends on its index
+        res.records.sort(key=lambda r: json.dumps(r, sort_keys=True))
         return res
 
     # ---- 1. every ordered pair (old,new) of every kind through every short history on one slot -----
@@ -652,6 +660,10 @@ def run(ctx):
     hs = res.records
     if len(hs) == 0:
         raise vlib.InfraError("no histories exported by " + mod)
+    # the binding only matters for histories that store something; the others are replayed once
+    nostore = [h for h in hs if not any(st["a"] == "write" and st["res"] == "ok" for st in h["h"])]
+    hs = [h for h in hs if any(st["a"] == "write" and st["res"] == "ok" for st in h["h"])]
+    replay(ctx, cat, exe, nostore, "pairs0", lambda n: Binding(cat, n + off, A, B, C))
     big = Repeat(hs, len(A))
     replay(ctx, cat, exe, big, "pairs", lambda n: Binding(cat, n // len(hs), A, B, C),
            every_step_of=lambda n: True)
@@ -667,13 +679,13 @@ def run(ctx):
 
     # ---- 3. rewriting a name with another kind (lenient reading, see Checkpoint.tla) -------------
     res = tlc("MCCross", "Checkpoint histories with kind changes")
-    reps = 6 if quick else 40
+    reps = 3 if quick else 16
     big = Repeat(res.records, reps)
     st = replay(ctx, cat, exe, big, "cross", lambda n: Binding(cat, (n // max(1, len(res.records))) * 37 + n + off, A, B, C))
     ctx.extra["cross_kind_branches_not_taken"] = st["branch"]
 
     # ---- 4. deeper random histories ------------------------------------------------------------
-    nsim = 60 if quick else 1500
+    nsim = 40 if quick else 300
     res = tlc("MCSim", "Checkpoint simulation", simulate=nsim, depth=12, workers=4, seed=ctx.seed)
     # (half of them observed only at the end: intermediate fresh readers must not be what keeps the file right)
     if res.records:
